@@ -22,8 +22,17 @@
 //   conv_p1_<op> [SE_K_3<1> inputs]→ SE_K_3<1> result ++ SE3 result           (same inputs)
 //   conv_p2_<op> [SE_K_3<2> inputs]→ SE_K_3<2> result ++ Galilei result at tau = 0 / s = 0
 //        <op> ∈ identity matrix compose inverse log Ad exp hat ad dr_exp dr_expinv
+// Constructors from parts and between storage types (API-coverage unit; all exact coefficient moves):
+//   conv_se2_parts_ctor[_map] [qz qw x y]→4   conv_se3_parts_ctor[_map] [q(4) t(3)]→7   (_map: the rotation is a Map<const SO*>)
+//   conv_gal_parts_ctor [q(4) v(3) p(3) t]→11   conv_gal_parts_ctor_dflt [q v p]→11 (default r1_t)   conv_sek2_parts_ctor [q(4) p1 p2]→10
+//   conv_bundle_parts_ctor [q(4) v(3) se2(4) c1(2)]→13      Bundle<SO3,V3,SE2,C1>(so3, v, se2, c1)
+//   conv_copy_<k>_<GRP> [coeffs]→coeffs,  k ∈ map cmap (G(const GBase<Map…>&)), asgmap asgcmap (value = view), mapasg (view = value),
+//        mapasgcmap (view = const view), mapcopy (Map<G>(const Map<G>&) then read);  GRP ∈ SO2 SO3 SE2 SE3 C1 GAL SEK2 B
+//   conv_so3_quat_write [w x y z]→4 (x y z w)    g.quat() = q  through the non-const accessor (no normalisation)
+//   conv_euler_xyz [4]→ eulerAngles(0,1,2) (3) ++ rot_x(e0) rot_y(e1) rot_z(e2) (4)     conv_of_euler_xyz [3]→4
 #include <complex>
 
+#include <smooth/bundle.hpp>
 #include <smooth/c1.hpp>
 #include <smooth/galilei.hpp>
 #include <smooth/se2.hpp>
@@ -153,6 +162,79 @@ bool pair_op(int which, const std::string & op, const VX<S> & x, VX<S> & out)
   }
 }
 
+// ------------------------------------------------------------------ construction / assignment between storage types
+// conv_copy_<k>_<GRP>: the coefficients travel through one constructor or assignment operator between value, Map and
+// Map<const> storage and must arrive verbatim.
+template<class G, class S>
+bool copy_kind(const std::string & k, const VX<S> & x, VX<S> & out)
+{
+  constexpr int R = G::RepSize;
+  if (x.size() != size_t(R)) return false;
+  S src[R + 2], dst[R + 2];
+  for (int i = 0; i < R; ++i) { src[i] = x[i]; dst[i] = S(-7); }
+  if (k == "map") {  // G(const GBase<Map<G>> &)
+    smooth::Map<G> m(src);
+    const G g(m);
+    put(out, g.coeffs());
+  } else if (k == "cmap") {  // G(const GBase<Map<const G>> &)
+    const smooth::Map<const G> m(src);
+    const G g(m);
+    put(out, g.coeffs());
+  } else if (k == "asgmap") {  // LieGroupBase::operator=(other storage): value = Map
+    smooth::Map<G> m(src);
+    G g = G::Identity();
+    g   = m;
+    put(out, g.coeffs());
+  } else if (k == "asgcmap") {  // value = Map<const>
+    const smooth::Map<const G> m(src);
+    G g = G::Identity();
+    g   = m;
+    put(out, g.coeffs());
+  } else if (k == "mapasg") {  // Map = value: writes the viewed memory
+    const G g = fromc<G>(x, 0);
+    smooth::Map<G> m(dst);
+    m = g;
+    for (int i = 0; i < R; ++i) out.push_back(dst[i]);
+  } else if (k == "mapasgcmap") {  // Map = Map<const>
+    const smooth::Map<const G> c(src);
+    smooth::Map<G> m(dst);
+    m = c;
+    for (int i = 0; i < R; ++i) out.push_back(dst[i]);
+  } else if (k == "mapasgmap") {  // Map = Map (defaulted copy assignment of the view: copies the COEFFICIENTS, not the pointer)
+    smooth::Map<G> a(src), m(dst);
+    m = a;
+    for (int i = 0; i < R; ++i) out.push_back(dst[i]);
+  } else if (k == "mapcopy") {  // Map(const Map &): a second view of the same memory
+    smooth::Map<G> a(src);
+    smooth::Map<G> b(a);
+    b.coeffs()(0) = src[0];  // write through the copy: must land in src
+    put(out, G(b).coeffs());
+  } else {
+    return false;
+  }
+  return true;
+}
+
+template<class S>
+bool copy_op(const std::string & op, const VX<S> & x, VX<S> & out)
+{
+  using namespace smooth;
+  using V3 = Eigen::Matrix<S, 3, 1>;
+  const std::string rest = op.substr(10);  // <k>_<GRP>
+  const auto us          = rest.find('_');
+  if (us == std::string::npos) return false;
+  const std::string k = rest.substr(0, us), grp = rest.substr(us + 1);
+  if (grp == "SO2") return copy_kind<SO2<S>, S>(k, x, out);
+  if (grp == "SO3") return copy_kind<SO3<S>, S>(k, x, out);
+  if (grp == "SE2") return copy_kind<SE2<S>, S>(k, x, out);
+  if (grp == "SE3") return copy_kind<SE3<S>, S>(k, x, out);
+  if (grp == "C1") return copy_kind<C1<S>, S>(k, x, out);
+  if (grp == "GAL") return copy_kind<Galilei<S>, S>(k, x, out);
+  if (grp == "SEK2") return copy_kind<SE_K_3<S, 2>, S>(k, x, out);
+  if (grp == "B") return copy_kind<Bundle<SO3<S>, V3, SE2<S>, C1<S>>, S>(k, x, out);
+  return false;
+}
+
 // ------------------------------------------------------------------ one request
 template<class S>
 bool eval_op(const std::string & op, const VX<S> & x, VX<S> & out)
@@ -231,6 +313,54 @@ bool eval_op(const std::string & op, const VX<S> & x, VX<S> & out)
     const Eigen::Matrix<S, 3, 1> e = g.eulerAngles();
     put(out, e);
     put(out, (SO3<S>::rot_z(e(0)) * SO3<S>::rot_y(e(1)) * SO3<S>::rot_x(e(2))).coeffs());
+  } else if (op == "conv_of_euler_xyz" && n == 3) {
+    put(out, (SO3<S>::rot_x(x[0]) * SO3<S>::rot_y(x[1]) * SO3<S>::rot_z(x[2])).coeffs());
+  } else if (op == "conv_euler_xyz" && n == 4) {
+    const SO3<S> g                 = fromc<SO3<S>>(x, 0);
+    const Eigen::Matrix<S, 3, 1> e = g.eulerAngles(0, 1, 2);
+    put(out, e);
+    put(out, (SO3<S>::rot_x(e(0)) * SO3<S>::rot_y(e(1)) * SO3<S>::rot_z(e(2))).coeffs());
+  } else if (op == "conv_so3_quat_write" && n == 4) {
+    SO3<S> g = SO3<S>::Identity();
+    g.quat() = Eigen::Quaternion<S>(x[0], x[1], x[2], x[3]);  // (w, x, y, z)
+    put(out, g.coeffs());
+  } else if ((op == "conv_se2_parts_ctor" || op == "conv_se2_parts_ctor_map") && n == 4) {
+    const SO2<S> r = fromc<SO2<S>>(x, 0);
+    const V2 t(x[2], x[3]);
+    if (op == "conv_se2_parts_ctor") put(out, SE2<S>(r, t).coeffs());
+    else {
+      const Map<const SO2<S>> rm(r.data());
+      put(out, SE2<S>(rm, t).coeffs());
+    }
+  } else if ((op == "conv_se3_parts_ctor" || op == "conv_se3_parts_ctor_map") && n == 7) {
+    const SO3<S> r = fromc<SO3<S>>(x, 0);
+    const Eigen::Matrix<S, 3, 1> t(x[4], x[5], x[6]);
+    if (op == "conv_se3_parts_ctor") put(out, SE3<S>(r, t).coeffs());
+    else {
+      const Map<const SO3<S>> rm(r.data());
+      put(out, SE3<S>(rm, t).coeffs());
+    }
+  } else if (op == "conv_gal_parts_ctor" && n == 11) {
+    const SO3<S> r = fromc<SO3<S>>(x, 0);
+    const Eigen::Matrix<S, 3, 1> v(x[4], x[5], x[6]), p(x[7], x[8], x[9]);
+    put(out, Galilei<S>(r, v, p, x[10]).coeffs());
+  } else if (op == "conv_gal_parts_ctor_dflt" && n == 10) {
+    const SO3<S> r = fromc<SO3<S>>(x, 0);
+    const Eigen::Matrix<S, 3, 1> v(x[4], x[5], x[6]), p(x[7], x[8], x[9]);
+    put(out, Galilei<S>(r, v, p).coeffs());
+  } else if (op == "conv_sek2_parts_ctor" && n == 10) {
+    const SO3<S> r = fromc<SO3<S>>(x, 0);
+    const Eigen::Matrix<S, 3, 1> p1(x[4], x[5], x[6]), p2(x[7], x[8], x[9]);
+    put(out, SE_K_3<S, 2>(r, p1, p2).coeffs());
+  } else if (op == "conv_bundle_parts_ctor" && n == 13) {
+    using V3 = Eigen::Matrix<S, 3, 1>;
+    const SO3<S> r = fromc<SO3<S>>(x, 0);
+    const V3 v(x[4], x[5], x[6]);
+    const SE2<S> e = fromc<SE2<S>>(x, 7);
+    const C1<S> c  = fromc<C1<S>>(x, 11);
+    put(out, Bundle<SO3<S>, V3, SE2<S>, C1<S>>(r, v, e, c).coeffs());
+  } else if (op.rfind("conv_copy_", 0) == 0) {
+    return copy_op<S>(op, x, out);
   } else if (op == "conv_se2_isometry" && n == 4) {
     put(out, fromc<SE2<S>>(x, 0).isometry().matrix());
   } else if (op == "conv_se2_iso_ctor" && n == 9) {
@@ -550,6 +680,65 @@ void run_so3(FILE * f, Rng & r, int n)
   }
 }
 
+// constructors from parts, construction / assignment between storage types, quat() write access, other Euler conventions
+template<class S>
+void run_ctors(FILE * f, Rng & r, int n)
+{
+  using namespace smooth;
+  auto rnd = [&](int k) { return S(gen_trans(r, k)); };
+  for (int i = 0; i < 4 * n; ++i) {
+    const SO3<S> q  = random_so3<S>(r, i);
+    const Circ<S> c = so2_stratum<S>(r, i * 3 + r.below(34));
+    VX<S> xq;
+    put(xq, q.coeffs());
+    const char * tag = i % 6 == 1 ? "near_pi" : (i % 6 == 4 ? "identity_rot" : "");
+    {
+      const VX<S> x{c.qz, c.qw, rnd(i), rnd(i + 1)};
+      go<S>(f, "conv_se2_parts_ctor", "SE2", x, c.tag);
+      go<S>(f, "conv_se2_parts_ctor_map", "SE2", x, c.tag);
+    }
+    VX<S> x3 = xq;
+    for (int k = 0; k < 3; ++k) x3.push_back(rnd(i + k));
+    go<S>(f, "conv_se3_parts_ctor", "SE3", x3, tag);
+    go<S>(f, "conv_se3_parts_ctor_map", "SE3", x3, tag);
+    VX<S> xg = xq;
+    for (int k = 0; k < 6; ++k) xg.push_back(rnd(i + k));
+    go<S>(f, "conv_sek2_parts_ctor", "SEK2", xg, tag);
+    go<S>(f, "conv_gal_parts_ctor_dflt", "GAL", xg, tag);
+    xg.push_back(i % 5 == 0 ? S(0) : S(r.uni(-10, 10)));
+    go<S>(f, "conv_gal_parts_ctor", "GAL", xg, tag);
+    VX<S> xb = xq;
+    for (int k = 0; k < 3; ++k) xb.push_back(rnd(i + k));
+    xb.push_back(rnd(i)); xb.push_back(rnd(i + 2)); xb.push_back(c.qz); xb.push_back(c.qw);
+    xb.push_back(S(r.uni(-2, 2))); xb.push_back(S(r.uni(-2, 2)));
+    go<S>(f, "conv_bundle_parts_ctor", "B", xb, tag);
+    // between storage types: arbitrary coefficient words (incl. signed zeros and non-normalised data) must arrive verbatim
+    const char * kinds[] = {"map", "cmap", "asgmap", "asgcmap", "mapasg", "mapasgcmap", "mapasgmap", "mapcopy"};
+    const char * k = kinds[i % 8];
+    auto words = [&](int m) {
+      VX<S> w;
+      for (int j = 0; j < m; ++j) w.push_back(j % 5 == 3 ? (r.next() & 1 ? S(0) : -S(0)) : S(r.uni(-3, 3)));
+      return w;
+    };
+    const std::pair<const char *, int> grps[] = {{"SO2", 2}, {"SO3", 4}, {"SE2", 4}, {"SE3", 7}, {"C1", 2}, {"GAL", 11}, {"SEK2", 10}, {"B", 13}};
+    for (auto [gname, rep] : grps) go<S>(f, std::string("conv_copy_") + k + "_" + gname, gname, words(rep), "verbatim");
+    // quat() write access, Euler angles in the x-y-z convention
+    go<S>(f, "conv_so3_quat_write", "SO3", VX<S>{S(r.uni(-2, 2)), S(r.uni(-2, 2)), i % 4 == 2 ? -S(0) : S(r.uni(-2, 2)), S(r.uni(-2, 2))}, "verbatim");
+    {
+      SO3<S> ge = q;
+      for (int tries = 0; tries < 20; ++tries) {
+        const Eigen::Matrix<S, 3, 3> R = ge.matrix();
+        if (std::fabs(double(R(0, 2))) < 0.999) break;
+        ge = random_so3<S>(r, tries);
+      }
+      VX<S> xe;
+      put(xe, ge.coeffs());
+      go<S>(f, "conv_euler_xyz", "SO3", xe, "");
+      go<S>(f, "conv_of_euler_xyz", "SO3", VX<S>{S(r.uni(-M_PI, M_PI)), S(r.uni(-1.5, 1.5)), S(r.uni(-M_PI, M_PI))}, "");
+    }
+  }
+}
+
 template<class S>
 void family(FILE * f, Rng & r, int n)
 {
@@ -557,6 +746,7 @@ void family(FILE * f, Rng & r, int n)
   run_so3<S>(f, r, n);
   run_pairs<S, 1>(f, r, 9 * n);
   run_pairs<S, 2>(f, r, 9 * n);
+  run_ctors<S>(f, r, n);   // last: the random stream of the ops above is unchanged
 }
 
 // ------------------------------------------------------------------ eval mode
